@@ -7,6 +7,8 @@ import vlib
 
 def classify(e, mon):
     d = {"monitor": mon, "op": e["op"]}
+    if e["op"] == "unstake":
+        d.update({"claim": e["claim"], "full": e["full"], "ok": e["ok"]})
     if e["op"] == "apy":
         d.update({"elapsed": e["now"] - e["start"], "weeks": (e["now"] - e["start"]) // 604800})
     return d
@@ -22,8 +24,11 @@ def run(ctx):
     stats = {"apy_elapsed": 0, "apy_past_last_bucket": 0, "apy_partial_week": 0, "pairs_ordered": 0, "pairs_strict": 0}
     seen = set()
     total = 0
+    stats.update({"unstake_partial": 0, "unstake_full_request": 0, "unstake_forced_full": 0, "unstake_dust_swept": 0,
+                  "unstake_rejected_claims_disabled": 0, "unstake_rejected_amount": 0, "unstake_value_rounded": 0})
     for name, args in (("small", ["small"]),
-                       ("random", ["random", "--seed", ctx.seed, "--n", 4000 if q else 60000])):
+                       ("random", ["random", "--seed", ctx.seed, "--n", 4000 if q else 60000]),
+                       ("unstake", ["unstake", "--seed", ctx.seed, "--n", 1500 if q else 30000])):
         tr = ctx.path(name + ".ndjson")
         ctx.run_bin("c38", args + ["--out", tr])
         fails, drifts, _ = ctx.validate_trace("Trace_Apy", tr)
@@ -37,6 +42,18 @@ def run(ctx):
                     stats["apy_past_last_bucket"] += t // 604800 > 52
                     stats["apy_partial_week"] += t % 604800 != 0
                 seen.add(("apy", t, tuple(e["g"])))
+            elif e["op"] == "unstake":
+                rem = e["amount"] - e["u"]
+                if e["ok"]:
+                    stats["unstake_partial"] += not e["full"]
+                    stats["unstake_full_request"] += rem == 0
+                    stats["unstake_forced_full"] += e["full"] and rem > 0
+                    stats["unstake_dust_swept"] += e["full"] and e["vault"] > e["amount"]
+                    stats["unstake_value_rounded"] += (not e["full"]) and (e["value"] * rem) % e["amount"] != 0
+                else:
+                    stats["unstake_rejected_claims_disabled"] += (not e["claim"]) and 0 < e["u"] < e["amount"]
+                    stats["unstake_rejected_amount"] += e["u"] == 0 or e["u"] > e["amount"]
+                seen.add(("un", e["amount"], e["value"], e["claim"], e["minv"], e["vault"], e["u"]))
             else:
                 if e["ok1"] and e["ok2"] and e["a1"] <= e["a2"] and e["c1"] <= e["c2"]:
                     stats["pairs_ordered"] += 1
@@ -55,10 +72,12 @@ def run(ctx):
         "saturation of the reward are outside the explored world",
         "the literal per-second average is compared with the code-shaped and the week-grouped formula for a 3-second week "
         "(TLC, all elapsed times up to 55 weeks); at the real week length the monitor uses the week-grouped definition",
-        "unstake clauses (partial value, full-exit sweep, claims disabled) are checked on the specification only: the "
-        "arithmetic is inline in the unstake_lp handler behind CPIs"]
-    ctx.cov["trusted_base"] += ["TLC", "h-aux c38 driver", "hook gmsol_liquidity_provider::verif (thin wrappers)"]
+        "unstake_lp runs through the program entry on fabricated accounts; the store (GT cumulative factor via return data, GT "
+        "mint) and the token program (transfer_checked, close_account) are mocked at the CPI boundary; the transferred amount is "
+        "the amount of the transfer instruction the program issued, the position is read back from its account"]
+    ctx.cov["trusted_base"] += ["TLC", "h-aux c38 driver", "h-aux rt (syscall stubs, CPI recorder)", "hook gmsol_liquidity_provider::verif (thin wrappers)"]
     return ctx.finish("model_checking",
-                      "gradient families x week-boundary elapsed times (two scales) and all small ordered reward pairs, plus "
-                      "random gradients / times / reward operands; distinct = distinct argument tuples",
+                      "gradient families x week-boundary elapsed times (two scales), all small ordered reward pairs, every unstake of "
+                      "the model's finite domain (amount 1..6, value 0..12, request 0..7, policy, minimum, dust) plus random inputs; "
+                      "distinct = distinct argument tuples",
                       extra={"classes": stats, "calls": total}, exhaustive=False)
